@@ -116,6 +116,8 @@ pub struct Catalog {
     meta_table: PageId,
     meta_index: PageId,
     pager: SharedPager,
+    /// Serialises row id allocation (read next_row_id, increment, write back).
+    row_id_lock: parking_lot::Mutex<()>,
 }
 
 impl Catalog {
@@ -124,7 +126,31 @@ impl Catalog {
             meta_table,
             meta_index,
             pager,
+            row_id_lock: parking_lot::Mutex::new(()),
         }
+    }
+
+    /// Hands out the next row id of a table and stores the incremented counter, as one step
+    /// with respect to other allocators. Returns the relation as read and the allocated id.
+    pub(crate) fn allocate_row_id(
+        &self,
+        table_id: ObjectId,
+        builder: &BtreeBuilder,
+        snapshot: &Snapshot,
+    ) -> CatalogResult<(Relation, UInt64)> {
+        let _allocating = self.row_id_lock.lock();
+        let mut relation = self.get_relation(table_id, builder, snapshot)?;
+        let row_id = relation.next_row_id();
+        relation.increment_row_id();
+        self.update_relation(
+            table_id,
+            Some(relation.next_row_id().value()),
+            None,
+            None,
+            builder,
+            snapshot,
+        )?;
+        Ok((relation, row_id))
     }
 
     /// Converts a relation into a meta table tuple for storage.
